@@ -47,15 +47,15 @@ QUAD_MCX = 64.0
 K_CONS = 1e6
 # extrapolated-order clause: |err| <= C_X[target|method] * T + C_XR * R + floor, (T, R) = truncation and rounding parts
 # of U_x (U_basic if k_est = 1); asserted for the short geometric user sequences (step kind 'geo') and for the default
-# configuration of the real-step methods.  Worst err/T over truncation-dominated entries (8 quick seeds + thorough
-# seed 0, 95 000 cases): Hessian central 0.20, central2 14, complex 0.14, multicomplex 0.26, forward 8.3, backward 66;
-# Hessdiag central 33, central2 57, complex 0.066, multicomplex (order 2) 0.008, forward 15, backward 68.
-# Worst err/R over rounding-dominated entries: 1.3e3 (Wynn / Richardson amplify pure rounding noise).
-C_X = {'hessian|central': 3.0, 'hessian|central2': 200.0, 'hessian|complex': 3.0, 'hessian|multicomplex': 3.0,
-       'hessian|forward': 100.0, 'hessian|backward': 1e3,
-       'hessdiag|central': 500.0, 'hessdiag|central2': 1e3, 'hessdiag|complex': 3.0, 'hessdiag|multicomplex': 3.0,
-       'hessdiag|forward': 200.0, 'hessdiag|backward': 1e3}
-C_XR = 3e4
+# configuration of the real-step methods.  Worst err/T over truncation-dominated entries (thorough seed 0, 63 000
+# cases): Hessian central 0.006, central2 0.010, complex 0.020, multicomplex 0.052, forward 0.13, backward 0.13;
+# Hessdiag central 23.5, central2 0.52, complex 0.002, multicomplex (order 2) 0.018, forward 1.4, backward 1.5.
+# Worst err/R over rounding-dominated entries: 10.6.
+C_X = {'hessian|central': 3.0, 'hessian|central2': 3.0, 'hessian|complex': 3.0, 'hessian|multicomplex': 3.0,
+       'hessian|forward': 3.0, 'hessian|backward': 3.0,
+       'hessdiag|central': 500.0, 'hessdiag|central2': 10.0, 'hessdiag|complex': 3.0, 'hessdiag|multicomplex': 3.0,
+       'hessdiag|forward': 30.0, 'hessdiag|backward': 30.0}
+C_XR = 300.0
 OVERFLOW = 1e150
 H_METHODS = ['central', 'central2', 'forward', 'backward', 'complex', 'multicomplex']
 REAL_STEP = ('central', 'central2', 'forward', 'backward')
